@@ -608,8 +608,8 @@ def run(ctx):
         "tx_inner_0954", "tx_inner_0207", "tx_inner_0953", "tunnel_injected_plain_forged_replayed", "client_sends",
         "genuine_accepted_below_rejected_number", "event_replayed", "event_nested-wrapper", "event_wrong-key", "event_stale-sequence-number",
     )
-    n_a = ctx.scale(1200, 16000)
-    n_b = ctx.scale(150, 1600)
+    n_a = ctx.scale(1200, 200000)
+    n_b = ctx.scale(150, 16000)
     with harness_patches():
         for i in range(n_a):
             spec = gen_spec(ctx.rng, i)
